@@ -80,6 +80,8 @@ def make(ctx, cls, k):
                 m = 0       # a member with no samples
             if k % 6 == 5:
                 m = 1       # as many samples in total as members: stored arrays have the length of the metadata
+            if with_data and k % 8 == 7:
+                m = 0       # a group of Tsd members none of which holds a sample: the members stay Tsd
             tl = sorted(rng.sample(range(0, 60), m))
             if with_data and k % 4 == 1 and j == 0:
                 # many samples sharing their timestamps (each of 20 instants three times): the writer pools all members by
